@@ -372,13 +372,29 @@ fn one_case_focus(cx: &mut Ctx, rng: &mut Rng, case: &Case, sym_prob: u64, focus
                 Ok(Ok(outs)) => {
                     cx.out.bucket("both_ok");
                     *cx.checked.entry(case.key.clone()).or_insert(0) += 1;
+                    // Every output is checked (no early exit). The known placeholder-rank
+                    // mismatch of SkipLayerNormalization outputs 1 and 2 is reported only when it
+                    // is the ONLY failure of the case, so that it can never hide another one.
+                    let mut known_only: Vec<String> = vec![];
+                    let mut others: Vec<String> = vec![];
                     for (j, t) in ts.iter().enumerate() {
                         if let Some(o) = outs.get(j) {
                             if let Some(msg) = contradiction(t, &sg, o) {
-                                fail = Some(format!("output {j}: {msg}"));
-                                break;
+                                let placeholder = matches!(case.key.as_str(), "SkipLayerNormalization" | "SkipSimplifiedLayerNormalization")
+                                    && (j == 1 || j == 2)
+                                    && msg == "inferred rank 1 but executed output has shape []";
+                                if placeholder {
+                                    known_only.push(format!("output {j}: {msg}"));
+                                } else {
+                                    others.push(format!("output {j}: {msg}"));
+                                }
                             }
                         }
+                    }
+                    if !others.is_empty() {
+                        fail = Some(others.join(" ;; "));
+                    } else if !known_only.is_empty() {
+                        fail = Some(known_only.join(" ;; "));
                     }
                     if ts.iter().any(|t| t.values().is_some()) {
                         cx.out.bucket("inferred_values");
